@@ -196,18 +196,13 @@ def run(chk: Check, model):
     # ------------------------------------------------------------------ compiled: partition runner
     fi = model.func("partition_runner.make_run_partition_excl_supervisor")
     chk.used(fi.qualname)
-    ev = SymEval(model, inline=("make_update_inputs",))
-    r = ev.run_function(fi)
+    from ..compiled import CompiledView
+    cv = CompiledView(model)  # (finds the three closures whatever they are called / however the node runner is bound)
+    ev, r = cv.ev, cv.outer
     if ev.notes:
         chk.notes.extend(ev.notes)
-    for name in ("_run_node", "_run_generation", "_run_S"):
-        name = model.local_name(f"partition_runner.make_run_partition_excl_supervisor.{name}")
-        if name not in r.env or r.env[name][0] != "closure":
-            raise AnalysisError(f"closure {name} not found in make_run_partition_excl_supervisor")
     # _run_node
-    n0 = len(ev.events)
-    ev.invoke(r.env[model.local_name("partition_runner.make_run_partition_excl_supervisor._run_node")], [T.sym("kind"), T.sym("graph_state"), T.sym("timings_node")], r.frame)
-    evs = _step_events(ev.events[n0:], ("step",))
+    evs = _step_events(cv.run_node.events, ("step",))
     lo, hi, w = flow.count_range(evs, T.TRUE)
     f_node = model.func("partition_runner.make_run_partition_excl_supervisor._run_node")
     chk.used(f_node.qualname)
@@ -221,9 +216,7 @@ def run(chk: Check, model):
         chk.add("C06.result", "_run_node: the node stepped is the slot's kind", recv == T.mk_index(T.sym("nodes"), T.sym("kind")),
                 f"receiver is {T.show(recv)}, expected nodes[kind]", chk.loc(f_node, evs[0].node))
     # _run_generation
-    n0 = len(ev.events)
-    ev.invoke(r.env[model.local_name("partition_runner.make_run_partition_excl_supervisor._run_generation")], [T.sym("graph_state"), T.sym("timings_gen")], r.frame)
-    sub = ev.events[n0:]
+    sub = cv.run_generation.events
     f_gen = model.func("partition_runner.make_run_partition_excl_supervisor._run_generation")
     chk.used(f_gen.qualname)
     evs = _no_exc(_step_events(sub, ("step",)))
@@ -256,14 +249,13 @@ def run(chk: Check, model):
         # the true branch is the first callable
         tb = cond.args[1] if len(cond.args) > 2 else None
         cl = ev.closures.get(tb[1]) if tb is not None and tb[0] == "closure" else None
-        ok = cl is not None and cl.kind == "partial" and cl.inner[0] == "closure" and model.reference(ev.closures[cl.inner[1]].qualname).endswith("._run_node")
-        chk.add("C06.count", "_run_generation: true branch is the node step", ok, "the branch taken when run=True is not functools.partial(_run_node, kind)", chk.loc(f_gen, cond.node))
+        ok = cl is not None and ((cl.kind == "partial" and cl.inner[0] == "closure" and model.reference(ev.closures[cl.inner[1]].qualname).endswith("._run_node"))
+                                 or (cl.kind == "def" and model.reference(cl.qualname).endswith("._run_node")))
+        chk.add("C06.count", "_run_generation: true branch is the node step", ok, "the branch taken when run=True is not the node runner bound to the slot's kind", chk.loc(f_gen, cond.node))
     # _run_S itself: no direct step call
-    n0 = len(ev.events)
-    ev.invoke(r.env[model.local_name("partition_runner.make_run_partition_excl_supervisor._run_S")], [T.sym("graph_state")], r.frame)
     f_S = model.func("partition_runner.make_run_partition_excl_supervisor._run_S")
     chk.used(f_S.qualname)
-    direct = [e for e in _step_events(ev.events[n0:], ("step",)) if e.func == f_S.qualname]
+    direct = [e for e in _step_events(cv.run_S.events, ("step",)) if e.func == f_S.qualname]
     chk.add("C06.count", "_run_S: no step outside a generation", len(direct) == 0, f"{len(direct)} direct step call(s) in _run_S", chk.loc(f_S))
 
     # ------------------------------------------------------------------ compiled: what "inside the compiled horizon" is
